@@ -452,7 +452,7 @@ func (k *c03case) randomWalk(moves int) (climbed bool) {
 
 func runC03(c *fw.Ctx) {
 	betas := []int{0, 250, 600, 900, 1000, 1000, 100, 999}
-	ncases := c.Pick(240, 1500)
+	ncases := c.Pick(240, 4000)
 	for i := 0; i < ncases; i++ {
 		if !c.Begin(i) {
 			continue
